@@ -179,133 +179,138 @@ def enterCall (st : FState) (caller to : Addr) (value : Nat) (input : Bytes) (ga
   let top := st.stack.isEmpty
   let entry := st.world
   -- tracer.SaveCall; defer ExitCall
-  let st := { st with tracer := st.tracer.saveCall caller (some to) input value gas }
-  let idx := st.tracer.tree.currentIndex
-  if st.stack.length > 1024 then finish st .call caller to gas true false top gas none gas (some errDepth) st.world entry entry false
-  else if value ≠ 0 ∧ ¬ f.canTransfer then finish st .call caller to gas true false top gas none gas (some errBalance) st.world entry entry false
+  let tr1 := st.tracer.saveCall caller (some to) input value gas
+  let idx := tr1.tree.currentIndex
+  let st1 : FState := { st with tracer := tr1 }
+  if st.stack.length > 1024 then finish st1 .call caller to gas true false top gas none gas (some errDepth) entry entry entry false
+  else if value ≠ 0 ∧ ¬ f.canTransfer then finish st1 .call caller to gas true false top gas none gas (some errBalance) entry entry entry false
   else
-    let snapshot := st.world.length
+    let snapshot := entry.length
     if ¬ f.exists_ ∧ f.precompile.isNone ∧ f.eip158 ∧ value = 0 then
       -- calling a non-existing account: nothing happens, the debug tracer is pinged
-      let st := { st with events := st.events ++ openDebug f.debug top .call caller to input gas (some value) ++ closeDebug f.debug top none 0 none }
-      finish st .call caller to gas true false top gas none gas none st.world entry entry false
+      finish { st1 with events := st.events ++ openDebug f.debug top .call caller to input gas (some value) ++ closeDebug f.debug top none 0 none }
+        .call caller to gas true false top gas none gas none entry entry entry false
     else
-      let st := if ¬ f.exists_ then { st with world := st.world ++ [Effect.createAccount to] } else st
-      -- TransferWithRecord
-      let st := { st with tracer := st.tracer.transferRecord caller to f.balFrom f.balTo f.balFromAfter f.balToAfter
-                          world := st.world ++ [Effect.transfer caller to value] }
-      let st := { st with events := st.events ++ openDebug f.debug top .call caller to input gas (some value) }
+      -- CreateAccount if needed, then TransferWithRecord
+      let world := entry ++ ((if ¬ f.exists_ then [Effect.createAccount to] else []) ++ [Effect.transfer caller to value])
+      let tr2 := tr1.transferRecord caller to f.balFrom f.balTo f.balFromAfter f.balToAfter
+      let ev := st.events ++ openDebug f.debug top .call caller to input gas (some value)
+      let st2 : FState := { st with tracer := tr2, world := world, events := ev }
       match f.precompile with
       | some (r, g, e) =>
-        finish st .call caller to gas true f.debug top gas r (tailGas g e) e (tailWorld st.world snapshot e) entry entry false
+        finish st2 .call caller to gas true f.debug top gas r (tailGas g e) e (tailWorld world snapshot e) entry entry false
       | none =>
-        if f.codeEmpty then finish st .call caller to gas true f.debug top gas none gas none st.world entry entry false
+        if f.codeEmpty then finish st2 .call caller to gas true f.debug top gas none gas none world entry entry false
         else
           let fr : OpenFrame := { kind := .call, caller, to, value, input, gasSupplied := gas, storageAddr := to, snapshot,
                                   startGas := gas, top, treeNode := true, nodeIndex := idx, jpFired := false, interpGas := gas,
                                   facts := f, worldAtEntry := entry, worldAtSnapshot := entry }
           if f.jpEnabled then
-            let st := { st with jps := st.jps ++ [.pre caller to input value gas idx] }
+            let st3 : FState := { st2 with jps := st.jps ++ [.pre caller to input value gas idx] }
             match f.pre.err with
             | some e =>
               -- the pre join point failed: no code, no post join point; the frame fails like any other
-              let e' := normaliseOOG e
-              finish st .call caller to gas true f.debug top gas f.pre.ret (tailGas f.pre.gas (some e')) (some e')
-                (st.world.take snapshot) entry entry false
+              finish st3 .call caller to gas true f.debug top gas f.pre.ret (tailGas f.pre.gas (some (normaliseOOG e))) (some (normaliseOOG e))
+                (world.take snapshot) entry entry false
             | none =>
-              { st with stack := { fr with jpFired := true, interpGas := f.pre.gas } :: st.stack
-                        started := st.started ++ [(to, f.pre.gas)] }
-          else { st with stack := fr :: st.stack, started := st.started ++ [(to, gas)] }
+              { st3 with stack := { fr with jpFired := true, interpGas := f.pre.gas } :: st.stack
+                         started := st.started ++ [(to, f.pre.gas)] }
+          else { st2 with stack := fr :: st.stack, started := st.started ++ [(to, gas)] }
 
 /-- `CallCode` / `DelegateCall` / `StaticCall` up to `interpreter.Run` -/
 def enterOther (st : FState) (kind : CallKind) (caller to : Addr) (value : Nat) (input : Bytes) (gas : Nat) (f : EnterFacts) : FState :=
   let top := st.stack.isEmpty
   let entry := st.world
-  if st.stack.length > 1024 then finish st kind caller to gas false false top gas none gas (some errDepth) st.world entry entry false
-  else if kind = .callcode ∧ ¬ f.canTransfer then finish st kind caller to gas false false top gas none gas (some errBalance) st.world entry entry false
+  if st.stack.length > 1024 then finish st kind caller to gas false false top gas none gas (some errDepth) entry entry entry false
+  else if kind = .callcode ∧ ¬ f.canTransfer then finish st kind caller to gas false false top gas none gas (some errBalance) entry entry entry false
   else
-    let snapshot := st.world.length
-    let st := if kind = .staticcall then { st with world := st.world ++ [Effect.touch to] } else st
+    let snapshot := entry.length
+    let world := entry ++ (if kind = .staticcall then [Effect.touch to] else [])
     -- the debug tracer is told about every such frame (Enter, never Start: these are only reached from an opcode)
     let dbgValue : Option Nat := match kind with | .staticcall => none | _ => some value
-    let st := { st with events := st.events ++ (if f.debug then [DebugEvent.enter kind caller to input gas dbgValue] else []) }
+    let ev := st.events ++ (if f.debug then [DebugEvent.enter kind caller to input gas dbgValue] else [])
+    let st2 : FState := { st with world := world, events := ev }
     match f.precompile with
     | some (r, g, e) =>
-      finish st kind caller to gas false f.debug false gas r (tailGas g e) e (tailWorld st.world snapshot e) entry entry false
+      finish st2 kind caller to gas false f.debug false gas r (tailGas g e) e (tailWorld world snapshot e) entry entry false
     | none =>
       if f.codeEmpty then
         -- `interpreter.Run` returns (nil, nil) at once for empty code: no step, all gas back
-        finish st kind caller to gas false f.debug false gas none gas none st.world entry entry false
+        finish st2 kind caller to gas false f.debug false gas none gas none world entry entry false
       else
       let sAddr := match kind with | .staticcall => to | _ => caller
-      { st with stack := { kind, caller, to, value, input, gasSupplied := gas, storageAddr := sAddr, snapshot, startGas := gas,
-                           top := false, treeNode := false, nodeIndex := 0, jpFired := false, interpGas := gas, facts := f,
-                           worldAtEntry := entry, worldAtSnapshot := entry } :: st.stack
-                started := st.started ++ [(to, gas)] }
+      { st2 with stack := { kind, caller, to, value, input, gasSupplied := gas, storageAddr := sAddr, snapshot, startGas := gas,
+                            top := false, treeNode := false, nodeIndex := 0, jpFired := false, interpGas := gas, facts := f,
+                            worldAtEntry := entry, worldAtSnapshot := entry } :: st.stack
+                 started := st.started ++ [(to, gas)] }
 
 /-- `create` up to `interpreter.Run`; `to` is the new contract's address, `input` the init code -/
 def enterCreate (st : FState) (kind : CallKind) (caller to : Addr) (value : Nat) (input : Bytes) (gas : Nat) (f : EnterFacts) : FState :=
   let top := st.stack.isEmpty
   let entry := st.world
-  let st := { st with tracer := st.tracer.saveCall caller none input value gas }
-  let idx := st.tracer.tree.currentIndex
-  if st.stack.length > 1024 then finish st kind caller to gas true false top gas none gas (some errDepth) st.world entry entry false
-  else if ¬ f.canTransfer then finish st kind caller to gas true false top gas none gas (some errBalance) st.world entry entry false
-  else if f.nonceOverflow then finish st kind caller to gas true false top gas none gas (some errNonce) st.world entry entry false
+  let tr1 := st.tracer.saveCall caller none input value gas
+  let idx := tr1.tree.currentIndex
+  let st1 : FState := { st with tracer := tr1 }
+  if st.stack.length > 1024 then finish st1 kind caller to gas true false top gas none gas (some errDepth) entry entry entry false
+  else if ¬ f.canTransfer then finish st1 kind caller to gas true false top gas none gas (some errBalance) entry entry entry false
+  else if f.nonceOverflow then finish st1 kind caller to gas true false top gas none gas (some errNonce) entry entry entry false
   else
     -- nonce bump and access-list addition happen before the snapshot and are deliberately not rolled back
-    let st := { st with world := st.world ++ [Effect.nonceBump caller] ++ (if f.berlin then [Effect.accessList to] else []) }
-    if f.collision then finish st kind caller to gas true false top gas none 0 (some errCollision) st.world entry st.world false
+    let snapWorld := entry ++ ([Effect.nonceBump caller] ++ (if f.berlin then [Effect.accessList to] else []))
+    if f.collision then finish st1 kind caller to gas true false top gas none 0 (some errCollision) snapWorld entry snapWorld false
     else
-      let snapWorld := st.world
-      let snapshot := st.world.length
-      let st := { st with world := st.world ++ [Effect.createAccount to] ++ (if f.eip158 then [Effect.setNonce1 to] else []) }
-      let st := { st with tracer := st.tracer.transferRecord caller to f.balFrom f.balTo f.balFromAfter f.balToAfter
-                          world := st.world ++ [Effect.transfer caller to value] }
-      let st := { st with events := st.events ++ openDebug f.debug top kind caller to input gas (some value) }
-      { st with stack := { kind, caller, to, value, input, gasSupplied := gas, storageAddr := to, snapshot, startGas := gas, top,
+      let snapshot := snapWorld.length
+      let world := snapWorld ++ ([Effect.createAccount to] ++ (if f.eip158 then [Effect.setNonce1 to] else []) ++ [Effect.transfer caller to value])
+      let tr2 := tr1.transferRecord caller to f.balFrom f.balTo f.balFromAfter f.balToAfter
+      let ev := st.events ++ openDebug f.debug top kind caller to input gas (some value)
+      { st with tracer := tr2, world := world, events := ev
+                stack := { kind, caller, to, value, input, gasSupplied := gas, storageAddr := to, snapshot, startGas := gas, top,
                            treeNode := true, nodeIndex := idx, jpFired := false, interpGas := gas, facts := f,
                            worldAtEntry := entry, worldAtSnapshot := snapWorld } :: st.stack
                 started := st.started ++ (if input.isEmpty then [] else [(to, gas)]) }
 
+/-- what the post-contract-call join point makes of the interpreter's result -/
+def postJoinPoint (ret : Option Bytes) (err : Option String) (post : JPResult) : Option Bytes × Option String × Nat :=
+  match post.err with
+  | some e => if e = errOutOfGas then (ret, some errOutOfGas, post.gas) else (post.ret, some e, post.gas)
+  | none => (ret, err, post.gas)
+
+/-- the code-deposit part of `create`: final error, gas left, whether the code is stored -/
+def createDeposit (f : EnterFacts) (ret : Option Bytes) (err : Option String) (gasLeft : Nat) : Option String × Nat × Bool :=
+  let retLen := (ret.getD []).length
+  let err1 : Option String := if err.isNone ∧ f.eip158 ∧ retLen > 24576 then some errMaxCode else err
+  let err2 : Option String :=
+    if err1.isNone ∧ retLen ≥ 1 ∧ (ret.getD []).head? = some 0xEF ∧ f.london then some errInvalidCode else err1
+  if err2.isNone then
+    if gasLeft ≥ retLen * 200 then (none, gasLeft - retLen * 200, true) else (some errCodeStoreOOG, gasLeft, false)
+  else (err2, gasLeft, false)
+
 /-- `interpreter.Run` of the innermost frame returned: the epilogue of its frame function -/
 def haltFrame (st : FState) (fr : OpenFrame) (rest : List OpenFrame) (ret : Option Bytes) (err : Option String) (gasLeft : Nat)
     (post : JPResult) : FState :=
-  let st := { st with stack := rest }
   match fr.kind with
   | .call =>
-    -- post-contract-call join point
-    let (st, ret, err, gas) :=
-      if fr.jpFired then
-        let st := { st with jps := st.jps ++ [.post fr.caller fr.to fr.input fr.value gasLeft fr.nodeIndex ret (err.getD "")] }
-        match post.err with
-        | some e => if e = errOutOfGas then (st, ret, some errOutOfGas, post.gas) else (st, post.ret, some e, post.gas)
-        | none => (st, ret, err, post.gas)
-      else (st, ret, err, gasLeft)
-    finish st .call fr.caller fr.to fr.gasSupplied true fr.facts.debug fr.top fr.startGas ret (tailGas gas err) err
-      (tailWorld st.world fr.snapshot err) fr.worldAtEntry fr.worldAtSnapshot true
+    if fr.jpFired then
+      let r := postJoinPoint ret err post
+      finish { st with stack := rest, jps := st.jps ++ [.post fr.caller fr.to fr.input fr.value gasLeft fr.nodeIndex ret (err.getD "")] }
+        .call fr.caller fr.to fr.gasSupplied true fr.facts.debug fr.top fr.startGas r.1 (tailGas r.2.2 r.2.1) r.2.1
+        (tailWorld st.world fr.snapshot r.2.1) fr.worldAtEntry fr.worldAtSnapshot true
+    else
+      finish { st with stack := rest } .call fr.caller fr.to fr.gasSupplied true fr.facts.debug fr.top fr.startGas ret (tailGas gasLeft err) err
+        (tailWorld st.world fr.snapshot err) fr.worldAtEntry fr.worldAtSnapshot true
   | .callcode | .delegatecall | .staticcall =>
-    finish st fr.kind fr.caller fr.to fr.gasSupplied false fr.facts.debug false fr.startGas ret (tailGas gasLeft err) err
+    finish { st with stack := rest } fr.kind fr.caller fr.to fr.gasSupplied false fr.facts.debug false fr.startGas ret (tailGas gasLeft err) err
       (tailWorld st.world fr.snapshot err) fr.worldAtEntry fr.worldAtSnapshot true
   | .create | .create2 =>
-    let retLen := (ret.getD []).length
-    let err1 : Option String :=
-      if err.isNone ∧ fr.facts.eip158 ∧ retLen > 24576 then some errMaxCode else err
-    let err2 : Option String :=
-      if err1.isNone ∧ retLen ≥ 1 ∧ (ret.getD []).head? = some 0xEF ∧ fr.facts.london then some errInvalidCode else err1
-    -- code deposit
-    let (world, gas, err3) :=
-      if err2.isNone then
-        if gasLeft ≥ retLen * 200 then (st.world ++ [Effect.setCode fr.to (ret.getD [])], gasLeft - retLen * 200, none)
-        else (st.world, gasLeft, some errCodeStoreOOG)
-      else (st.world, gasLeft, err2)
-    let revert := err3.isSome ∧ (fr.facts.homestead ∨ err3 ≠ some errCodeStoreOOG)
+    let d := createDeposit fr.facts ret err gasLeft
+    let world := if d.2.2 then st.world ++ [Effect.setCode fr.to (ret.getD [])] else st.world
+    let revert := d.1.isSome ∧ (fr.facts.homestead ∨ d.1 ≠ some errCodeStoreOOG)
     let world' := if revert then world.take fr.snapshot else world
-    let gas' := if revert ∧ err3 ≠ some errReverted then 0 else gas
-    let st' := finish st fr.kind fr.caller fr.to fr.gasSupplied true false fr.top fr.startGas ret gas' err3 world'
-      fr.worldAtEntry fr.worldAtSnapshot true
+    let gas' := if revert ∧ d.1 ≠ some errReverted then 0 else d.2.1
     -- the debug callback of `create` is not deferred: it is emitted here, before ExitCall runs
-    { st' with events := st.events ++ closeDebug fr.facts.debug fr.top ret (fr.startGas - gas') err3 }
+    finish { st with stack := rest, events := st.events ++ closeDebug fr.facts.debug fr.top ret (fr.startGas - gas') d.1 }
+      fr.kind fr.caller fr.to fr.gasSupplied true false fr.top fr.startGas ret gas' d.1 world'
+      fr.worldAtEntry fr.worldAtSnapshot true
 
 def step (st : FState) : FEvent → FState
   | .enter kind caller to value input gas f =>
